@@ -83,6 +83,7 @@ def judge_slice(case, rec):
         rec.nontrivial()
     tkeys = dims[0].keys if nd == 3 else [None]
     for part, hpart, tkey in zip(ref.partitions, hid.partitions, tkeys):
+        lib.warm(part, case.get("warmup"))
         orc = Oracle(sv, q, table_key=tkey)
         for p, is_ref in ((part, True), (hpart, False)):
             _check_values(p, orc, case, rec)
